@@ -409,14 +409,16 @@ Definition outcome_matches (m : outcome) (o : observed) : bool :=
 Definition folder_eqb (a b : folder) : bool :=
   list_eqb String.eqb (f_path a) (f_path b) && Bool.eqb (f_metadata a) (f_metadata b)
   && Bool.eqb (f_completed a) (f_completed b) && opt_str_eqb (f_marker a) (f_marker b)
-  && String.eqb (f_written_id a) (f_written_id b) && set_eqb (f_jsons a) (f_jsons b)
+  && String.eqb (f_written_id a) (f_written_id b)
   && (if f_metadata a || is_some (f_marker a) then
-        opt_str_eqb (f_parent_file a) (f_parent_file b)
+        set_eqb (f_jsons a) (f_jsons b)
+        && opt_str_eqb (f_parent_file a) (f_parent_file b)
         && String.eqb (f_name a) (f_name b) && opt_str_eqb (f_tag a) (f_tag b)
         && String.eqb (f_model a) (f_model b) && opt_str_eqb (f_info a) (f_info b)
         && opt_eqb (list_eqb sample_eqb) (f_samples a) (f_samples b)
         && list_eqb set_eqb (f_analyses a) (f_analyses b)
-      else true   (* a folder that is no search output: only what exists in it is compared *)).
+      else true   (* a folder that is no search output: its existence, identifier and missing markers only
+                     (whether a truncated file stays behind depends on how the writer was killed) *)).
 
 Inductive case :=
 (* from_dict(to_dict(search)) for class `cls` whose search.json carries `keys`: did it succeed? *)
